@@ -132,7 +132,7 @@ public:
     mutex.lock();
     bool ret = false;
 
-    if (x == *orderedSet.begin()) {
+    if (!orderedSet.empty() && x == *orderedSet.begin()) {
       orderedSet.erase(orderedSet.begin());
       ret = true;
     } else {
@@ -238,6 +238,9 @@ public:
 
   bool remove(const value_type& x) {
     bool ret = false;
+
+    if (container.empty())
+      return false;
 
     // TODO: write a better remove method
     if (x == top()) {
